@@ -37,10 +37,21 @@ LIM = 2 ** 63
 HASH_PERM_MAX_N = 2
 
 
-def mk_schedule(ex, mk, ws):
+def mk_schedule(ex, mk, ws, sym_leaders=False):
+    """a valid Schedule value. sym_leaders: the leader-eligible subset is symbolic (Booleans leader<i>, at least one) and
+    leader_weight is the weight of that subset — only for code that does not read the `leaders` vector / the flags."""
     N = len(ws)
     total = ex.fresh('total_weight')
     ex.assume(total.e == sum((w.e for w in ws[1:]), ws[0].e))
+    if sym_leaders:
+        fl = [z3.Bool(f'leader{i}') for i in range(N)]
+        lw = ex.fresh('leader_weight')
+        ex.assume(z3.And(z3.Or(*fl), lw.e == sum((z3.If(f, w.e, 0) for f, w in zip(fl, ws)), z3.IntVal(0))))
+        vec = M.VecV([mk.adt(V + 'schedule::ValidatorInfo', key=Opaque(('key', i)), weight=ws[i], leader=Opaque(('leader_flag', i))) for i in range(N)])
+        idx = M.MapV([(Opaque(('key', i)), Num(i, 64)) for i in range(N)], ordered=True)
+        sel = mk.adt(V + 'schedule::LeaderSelection', frequency=Num(1, 64), mode=mk.adt(V + 'schedule::LeaderSelectionMode', 'RoundRobin'))
+        return mk.adt(V + 'schedule::Schedule', vec=vec, indexes=idx, total_weight=total, leaders=Opaque('leaders (symbolic subset)'),
+                      leader_selection=sel, leader_weight=lw), total
     vec = M.VecV([mk.adt(V + 'schedule::ValidatorInfo', key=Opaque(('key', i)), weight=ws[i], leader=True) for i in range(N)])
     idx = M.MapV([(Opaque(('key', i)), Num(i, 64)) for i in range(N)], ordered=True)
     sel = mk.adt(V + 'schedule::LeaderSelection', frequency=Num(1, 64), mode=mk.adt(V + 'schedule::LeaderSelectionMode', 'RoundRobin'))
@@ -124,7 +135,7 @@ def explore_gib(rep, db, N, assume_fn=None):
     def body(ex):
         ws = [ex.fresh(f'w{i}') for i in range(N)]
         for w in ws: ex.assume(z3.And(w.e >= 1, w.e < 2 ** 58))
-        sched, total = mk_schedule(ex, mk, ws)
+        sched, total = mk_schedule(ex, mk, ws, sym_leaders=True)
         first = ex.fresh('first_block'); ex.assume(first.e < LIM)
         if assume_fn: ex.assume(assume_fn(ws, syms, total))
         just, present = build_tqc(ex, mk, N, syms, Opaque('genesis'), z3.Int('tqc_view'))
@@ -168,6 +179,9 @@ def replay_src(N, m, syms, kind):
         except Exception: return d
     def bv(e): return z3.is_true(m.eval(e, model_completion=True))
     ws = [max(1, iv(z3.Int(f'w{i}'), 1)) for i in range(N)]
+    lf = [bv(z3.Bool(f'leader{i}')) for i in range(N)]
+    if not any(lf): lf = [True] * N
+    leaders = ', '.join(str(x).lower() for x in lf)
     rows = []
     for i, s in enumerate(syms):
         rows.append(f'        Vote {{ signs: {str(bv(s.inS)).lower()}, hv: {("Some((%d, %d, %d))" % (iv(s.hv_num), iv(s.hv_hash) % 250, iv(s.hv_view))) if bv(s.hv_some) else "None"}, qc: {("Some((%d, %d, %d))" % (iv(s.qc_num), iv(s.qc_hash) % 250, iv(s.qc_view))) if bv(s.qc_some) else "None"} }},')
@@ -183,9 +197,10 @@ struct Vote {{ signs: bool, hv: Option<(u64, u64, u64)>, qc: Option<(u64, u64, u
 fn replay() {{
     let n = {N};
     let weights: [u64; {N}] = [{", ".join(str(w) for w in ws)}];
+    let leaders: [bool; {N}] = [{leaders}];
     let mut keys: Vec<validator::PublicKey> = (0..n).map(|_| validator::SecretKey::generate().public()).collect();
     keys.sort();
-    let schedule = Schedule::new((0..n).map(|i| ValidatorInfo {{ key: keys[i].clone(), weight: weights[i], leader: true }}), LeaderSelection {{ frequency: 1, mode: LeaderSelectionMode::RoundRobin }}).unwrap();
+    let schedule = Schedule::new((0..n).map(|i| ValidatorInfo {{ key: keys[i].clone(), weight: weights[i], leader: leaders[i] }}), LeaderSelection {{ frequency: 1, mode: LeaderSelectionMode::RoundRobin }}).unwrap();
     let genesis: GenesisHash = rand::Rng::gen(&mut rand::thread_rng());
     let view = |v: u64| View {{ genesis, number: ViewNumber(v), epoch: EpochNumber(0) }};
     let hash = |h: u64| validator::Payload(h.to_be_bytes().to_vec()).hash();
